@@ -287,7 +287,10 @@ Fixpoint poll (t : nat) (i : inst) (v : env) {struct i} : inst * bool * env :=
           else
             (* other side: build, insert before, unmount and drop the old state *)
             let '(ch', v2) := build (if br' then a else b) v1 in
-            (IIf (clear f) memo c a b br' ch', true, dispose ch v2)
+            (* a memo that changed marks its subscriber dirty while the effect is checking it:
+               the task is woken once more (and finds nothing to do) *)
+            (IIf (clear f) memo c a b br' ch', true,
+             let v3 := dispose ch v2 in if memo then wake (eid f) v3 else v3)
       else
         let '(ch', rep, v1) := poll t ch v in (IIf f memo c a b br ch', rep, v1)
   end.
